@@ -109,7 +109,9 @@ func runPipeline(req request) (v verdict) {
 	v.Stage = "newgen"
 	opt := gen.Options{
 		Parser: gen.ParseOptions{
-			InferSchemaType: true,
+			// strict = ogen's defaults (no type inference, nothing ignored); otherwise the lenient
+			// configuration the suite uses for the big examples
+			InferSchemaType: !req.Strict,
 			File:            location.NewFile(req.Name, req.Name, req.Data),
 		},
 	}
